@@ -216,3 +216,44 @@ def agg_operand(f, adt, field):
             if v and v["r"] == "agg" and v.get("ak") == "adt" and (v["adt"] == adt or v["adt"].endswith("::" + adt)) and field in v["fields"]:
                 out.append((bi, v["a"][v["fields"].index(field)]))
     return out
+
+
+def flag_edges(ctx, f, flag_const, callee_name="get_flag"):
+    """[(switch block, target block, truth)] edges decided by `get_flag(_, FLAG)`"""
+    out = []
+    for bi, bb in enumerate(f.blocks):
+        t = bb["t"]
+        if t["k"] != "switch":
+            continue
+        arms = [(int(a), b) for a, b in t["arms"]] + [("else", t["else"])]
+        for (arm, tgt) in arms:
+            at = A.atom_of_edge(ctx.prog, f, bi, arm, ctx.slicer)
+            if at.kind == "call" and at.callee.endswith("::" + callee_name) and len(at.args) >= 2 and at.args[1].has_const(flag_const):
+                out.append((bi, tgt, at.truth))
+    return out
+
+
+def blocks_only_via(f, edge):
+    """blocks reachable from entry only through edge (sw, tgt)"""
+    sw, tgt = edge
+    full = A.reach_without(f)
+    wo = A.reach_without(f, removed_edges={(sw, tgt)})
+    return full - wo
+
+
+def writes_in_blocks(prog, f, blocks, owner_prefix="marginfi_type_crate::types::"):
+    """transitive (owner, field) writes performed by the given blocks of f"""
+    out = set()
+    blocks = set(blocks)
+    for w, sites in prog.writes_direct(f.key).items():
+        if any(b in blocks for (b, _, _) in sites):
+            out.add(w)
+    for c in f.calls():
+        if c.block in blocks:
+            for k in [c.key, c.closure]:
+                if k:
+                    out |= prog.writes(k)
+    for b, ck in f.closures_created():
+        if b in blocks:
+            out |= prog.writes(ck)
+    return {w for w in out if w[0].startswith(owner_prefix)}
